@@ -321,19 +321,25 @@ def gen_shrunk(rng, tier, idx):
     posting that became a TreeSet.  Then one transaction removes the surviving document(s) of that text while the
     other one indexes a new document with the same text; padding documents (three per padding text) keep every
     other word's posting a tree, so that the two transactions meet in nothing but the shrunk postings."""
-    cutoff = rng.choice([2, 2, 3])
+    cutoff = rng.choice([2, 2, 3, 10])            # 10 = the class default DICT_CUTOFF
     thr = rng.choice([2, 3, 4])
     npad = 6
     tseeds = rng.sample([7, 13, 20, 27, 9, 15, 22, 29, 35], 2)
+    if cutoff == 10:
+        # twelve padding documents with ONE text: their words' postings are IFBTrees too (a `_wordinfo` bucket that
+        # holds a dict never merges)
+        npad = 12
+        tseeds[1] = tseeds[0]
     used = set(text_words(tseeds[0])) | set(text_words(tseeds[1]))
     cands = [x for x in range(1, 60) if x % 6 and set(text_words(x)) - used]
-    rare = rng.choice(cands)
+    disjoint = [x for x in cands if not set(text_words(x)) & used]
+    rare = rng.choice(disjoint if disjoint and rng.random() < 0.5 else cands)
     g = cutoff + rng.choice([0, 1, 1, 1, 2, 3])
     nids = npad + g + rng.randrange(4, 8)
     live = list(range(npad, nids))
     rng.shuffle(live)
     grown, spare = live[:g], live[g:]
-    nsurv = rng.choice([1, 1, 1, 2])
+    nsurv = min(g, rng.choice([1, 1, 1, 2, 2, 3, 5]))
     k = [0]
     cmds = []
     kw_rare, fac_rare = rng.choice([8, 16, 24]), rng.choice([3, 4, 5])      # keyword / facet of the same documents
@@ -356,14 +362,18 @@ def gen_shrunk(rng, tier, idx):
     cmds.append(["begin"])
     surv = grown[:nsurv]
     a = []
-    for d in surv if rng.random() < 0.75 else surv[:1]:
+    # all of the survivors (the posting goes away), or some of them (it stays, smaller)
+    # (BTrees refuse to merge the deletion of a bucket's first key: a partial removal spares the smallest docid)
+    part = [d for d in surv if d != min(surv)]
+    for d in surv if rng.random() < 0.6 or not part else part[:rng.randrange(1, len(part) + 1)]:
         if rng.random() < 0.6:
             a.append(("a", "unindex", d, None))
         else:
             a.append(("a", "reindex", d, [0, 1, 0, rng.choice(tseeds), rng.choice(tseeds)]))
     b = [("b", "index", spare[0], list(rare_spec))]
+    others = tseeds + [rare]
     if rng.random() < 0.3:
-        b.append(("b", "index", spare[1], [1, 1, 0, rng.choice(tseeds + [rare]), rng.choice(tseeds + [rare])]))
+        b.append(("b", "index", spare[1], [1, 1, 0, rng.choice(others), rng.choice(others)]))
     if rng.random() < 0.2:
         a.append(("a", "index", spare[-1], [1, 1, 0, rng.choice(tseeds), rng.choice(tseeds)]))
     if rng.random() < 0.5:
